@@ -53,6 +53,7 @@ func (s *keySys) Enabled(ev int) bool     { return true }
 func (s *keySys) EventName(ev int) string { return s.events[ev].Name }
 
 func (s *keySys) Reset() {
+	vsched.GuardReset()
 	if s.store != "" {
 		s.st = env.NewFaultStore()
 		s.st.HonorTTL = s.store == "ttl"
